@@ -66,8 +66,12 @@ type sysStream struct {
 	slices   [][]byte
 	// sliceLoops[i]: the count-/command-driven parts the header of slices[i] has (as the library parsed it: evidence only)
 	sliceLoops [][]string
-	seis       [][]byte
-	features   []string
+	// loopSlices: further slices of ref contexts with every loop the context permits forced on (ctx-trunc only)
+	loopSlices     [][]byte
+	loopSliceLoops [][]string
+	seis           [][]byte
+	features       []string
+	loopCand       [][]byte // candidates for loopSlices (dropped by finishStream)
 }
 
 type sysTarget struct {
@@ -283,6 +287,25 @@ func finishStream(st *sysStream, cand [][]byte, maxSlices int) bool {
 			lp = on(lp, pps.NumSliceGroupsMinus1 > 0 && pps.SliceGroupMapType >= 3 && pps.SliceGroupMapType <= 5, "slice_group_change_cycle")
 			add(u, fmt.Sprintf("t%d-o%v-idr%v", t, sh.NumRefIdxActiveOverrideFlag, u[0]&0x1f == 5), lp)
 		}
+		for _, u := range st.loopCand {
+			sh := setupAVCSlice(u, [][]byte{st.sps, st.pps}, sm, pm)
+			if sh == nil || seen[string(u)] {
+				continue
+			}
+			t := sh.SliceType % 5
+			var lp []string
+			lp = on(lp, sh.RefPicListModificationL0Flag, "ref_pic_list_modification_l0")
+			lp = on(lp, sh.RefPicListModificationL1Flag, "ref_pic_list_modification_l1")
+			lp = on(lp, pps.WeightedPredFlag && (t == 0 || t == 3) || pps.WeightedBipredIDC == 1 && t == 1, "pred_weight_table")
+			lp = on(lp, sh.AdaptiveRefPicMarkingModeFlag, "dec_ref_pic_marking(adaptive)")
+			lp = on(lp, pps.NumSliceGroupsMinus1 > 0 && pps.SliceGroupMapType >= 3 && pps.SliceGroupMapType <= 5, "slice_group_change_cycle")
+			if len(u) > 400 {
+				u = u[:400]
+			}
+			st.loopSlices = append(st.loopSlices, u)
+			st.loopSliceLoops = append(st.loopSliceLoops, lp)
+		}
+		st.loopCand = nil
 		if pps.WeightedPredFlag {
 			st.features = append(st.features, "weighted_pred")
 		}
@@ -334,6 +357,25 @@ func finishStream(st *sysStream, cand [][]byte, maxSlices int) bool {
 		lp = on(lp, sh.SegmentHeaderExtensionLength > 0, "slice_segment_header_extension")
 		add(u, fmt.Sprintf("t%d-o%v-n%d-dep%v", sh.SliceType, sh.NumRefIdxActiveOverrideFlag, (u[0]>>1)&0x3f, sh.DependentSliceSegmentFlag), lp)
 	}
+	for _, u := range st.loopCand {
+		sh := setupHEVCSlice(u, [][]byte{st.sps, st.pps}, sm, pm)
+		if sh == nil || seen[string(u)] {
+			continue
+		}
+		var lp []string
+		lp = on(lp, sh.RefPicListsModification != nil, "ref_pic_lists_modification")
+		lp = on(lp, sh.PredWeightTable != nil, "pred_weight_table")
+		lp = on(lp, sh.NumLongTermPics+uint(sh.NumLongTermSps) > 0, "long_term_pics")
+		lp = on(lp, !sh.ShortTermRefPicSetSpsFlag && (sh.ShortTermRefPicSet.NumNegativePics+sh.ShortTermRefPicSet.NumPositivePics) > 0, "slice_local_st_ref_pic_set")
+		lp = on(lp, sh.NumEntryPointOffsets > 0, "entry_point_offsets")
+		lp = on(lp, sh.SegmentHeaderExtensionLength > 0, "slice_segment_header_extension")
+		if len(u) > 400 {
+			u = u[:400]
+		}
+		st.loopSlices = append(st.loopSlices, u)
+		st.loopSliceLoops = append(st.loopSliceLoops, lp)
+	}
+	st.loopCand = nil
 	for _, f := range []struct {
 		on   bool
 		name string
@@ -455,6 +497,29 @@ func refAVCStream(i int) (sysStream, bool) {
 			cand = append(cand, s.Encode(sps, pps).NAL)
 		}
 	}
+	// (round 6) slices with every loop forced on, for ctx-trunc: list modification commands of every kind for both lists, a full
+	// weight table, marking operations of every kind. Own generator stream: the candidates above stay what they were.
+	r2 := runner.NewRand(0xC16C16, 0xA7D, uint64(i))
+	for _, f := range []struct {
+		typ uint64
+		ov  bool
+	}{{0, false}, {1, false}, {5, true}, {6, true}, {3, false}} {
+		for try := 0; try < 2; try++ {
+			s := h264.GenSlice(r2, sps, pps)
+			s.NalUnitType, s.SliceType, s.NumRefIdxActiveOverride = 1, f.typ, f.ov
+			s.NalRefIdc = uint(1 + r2.Intn(3))
+			for x := 0; x < 2; x++ {
+				s.RPLM[x] = []h264.RPLMOp{{Idc: 0, Val: uint64(r2.Intn(1 << 10))}, {Idc: 1, Val: 0}, {Idc: 2, Val: uint64(r2.Intn(33))}, {Idc: uint64(r2.Intn(3)), Val: 1}}
+			}
+			s.PWT = fullAVCPWT(r2)
+			s.AdaptiveRefPicMarking = true
+			s.MMCO = []h264.MMCOOp{{Op: 1, A: uint64(r2.Intn(40))}, {Op: 3, A: 2, B: uint64(r2.Intn(17))}, {Op: 2, A: 1}, {Op: 6, A: uint64(r2.Intn(17))}, {Op: 4, A: 3}, {Op: 5}}
+			if try == 1 {
+				s.MMCO = s.MMCO[:1+r2.Intn(5)]
+			}
+			st.loopCand = append(st.loopCand, s.Encode(sps, pps).NAL)
+		}
+	}
 	if !finishStream(&st, cand, 8) {
 		return st, false
 	}
@@ -571,6 +636,42 @@ func refHEVCStream(i int) (sysStream, bool) {
 			}
 			c, _ := s.Encode(sps, pps)
 			cand = append(cand, c.NAL)
+		}
+	}
+	// (round 6) slices with every count-driven part the context permits forced on, for ctx-trunc (own generator stream)
+	r2 := runner.NewRand(0xC16C16, 0x4ED, uint64(i))
+	for _, f := range []struct {
+		typ uint64
+		ov  bool
+	}{{1, false}, {0, false}, {1, true}, {0, true}} {
+		for try := 0; try < 3; try++ {
+			s := h265.GenSlice(r2, sps, pps)
+			s.NalUnitType, s.SliceType, s.NumRefIdxActiveOverride, s.FirstSliceSegmentInPic = 1, f.typ, f.ov, try != 2
+			s.TemporalIDPlus1 = 1
+			s.DependentSliceSegment = false
+			s.ReservedFlags = make([]bool, pps.NumExtraSliceHeaderBits)
+			if try == 1 && len(sps.STRPS) > 0 {
+				s.ShortTermRefPicSetSps, s.STRPS, s.ShortTermRefPicSetIdx = true, nil, uint64(len(sps.STRPS)-1)
+			}
+			s.RplmL0, s.RplmL1 = make([]uint64, 16), make([]uint64, 16)
+			s.CollocatedRefIdx = 0
+			if s.PWT != nil {
+				for len(s.PWT.L0) < 16 {
+					s.PWT.L0 = append(s.PWT.L0, h265.PredWeight{LumaFlag: true, ChromaFlag: r2.Bool(), DeltaLumaWeight: int64(r2.Range(-128, 127)), LumaOffset: int64(r2.Range(-128, 127))})
+				}
+				for len(s.PWT.L1) < 16 {
+					s.PWT.L1 = append(s.PWT.L1, h265.PredWeight{LumaFlag: r2.Bool(), ChromaFlag: true, DeltaChromaWeight: [2]int64{3, -3}, DeltaChromaOffset: [2]int64{1, -1}})
+				}
+			}
+			if len(s.EntryPointOffsetMinus1) < 3 {
+				s.OffsetLenMinus1 = uint64([]int{0, 7, 31}[try])
+				s.EntryPointOffsetMinus1 = []uint64{0, 1, 0, 1}
+			}
+			if len(s.ExtensionData) == 0 {
+				s.ExtensionData = []byte{1, 2, 3, 4, 5}
+			}
+			c, _ := s.Encode(sps, pps)
+			st.loopCand = append(st.loopCand, c.NAL)
 		}
 	}
 	if !finishStream(&st, cand, 8) {
@@ -1230,7 +1331,7 @@ func buildCtxTruncPlan(thorough bool) int {
 	}
 	total := 0
 	for i, st := range sysStreams {
-		for k, u := range st.slices {
+		for k, u := range append(append([][]byte{}, st.slices...), st.loopSlices...) {
 			hdr := hdrLen(st.codec)
 			if len(u) <= hdr {
 				continue
@@ -1271,7 +1372,14 @@ func genCtxTrunc(x *runCtx, c *runner.Ctx, sub int) *job {
 	}
 	tg := ctxTruncTargets[lo]
 	st := &sysStreams[tg.stream]
-	u := st.slices[tg.slice]
+	var u []byte
+	var loops []string
+	if tg.slice < len(st.slices) {
+		u, loops = st.slices[tg.slice], st.sliceLoops[tg.slice]
+	} else {
+		// (numbered after the slices of the context)
+		u, loops = st.loopSlices[tg.slice-len(st.slices)], st.loopSliceLoops[tg.slice-len(st.slices)]
+	}
 	hdr := hdrLen(st.codec)
 	ch := &chainDetail{Codec: st.codec, Base: []string{hex.EncodeToString(st.sps), hex.EncodeToString(st.pps)}}
 	j := &job{chain: ch}
@@ -1287,13 +1395,11 @@ func genCtxTrunc(x *runCtx, c *runner.Ctx, sub int) *job {
 			Desc: fmt.Sprintf("ctx-trunc(%s): first %d RBSP bits of slice %d of %s + rbsp_trailing_bits, parsed against the unmodified parameter sets of that context", st.codec, n, tg.slice, st.name)})
 	}
 	x.note("ctx_trunc_context", st.codec+" "+st.origin)
-	if tg.slice < len(st.sliceLoops) {
-		for _, l := range st.sliceLoops[tg.slice] {
-			x.note("ctx_trunc_slice_with", st.codec+" "+l)
-		}
-		if len(st.sliceLoops[tg.slice]) == 0 {
-			x.note("ctx_trunc_slice_with", st.codec+" (none of the loops)")
-		}
+	for _, l := range loops {
+		x.note("ctx_trunc_slice_with", st.codec+" "+l)
+	}
+	if len(loops) == 0 {
+		x.note("ctx_trunc_slice_with", st.codec+" (none of the loops)")
 	}
 	c.Count("ctx_trunc_cases", 1)
 	c.Count("ctx_trunc_inputs", int64(len(j.items)))
